@@ -392,7 +392,7 @@ def run(ctx, rep, tier):
                   f"start() initialises default-less heap strings as {sorted(map(str, init_kinds))}, expected NULL under on-demand and malloc otherwise")
 
     # ------------------------------------------------------------------ C03.g bounds-checked index template
-    rep.rule("C03.g", "unless UNSAFE_STRING_INDEXING, an index read is `0 <= i < declared size ? read : 0` with the same index in test and read")
+    rep.rule("C03.g", "unless UNSAFE_STRING_INDEXING, an index read is `0 <= i < bound ? read : 0` with the same index in test and read; bound = declared size (raw: sizeof) or the string's length counter")
     fp = E.enumerate("CodegenCtx._generate_code_for_int_expr", classes={"intexpr": "StringRefIntegerExpr"})
     n_g = 0
     for p in fp.paths:
@@ -419,7 +419,8 @@ def run(ctx, rep, tier):
                 size_ok = size == "sizeof(state->c.[[intexpr.ref.name]])"
             else:
                 h = hole_src(size)
-                size_ok = h is not None and linear(h, is_str_size) == (1, 0)
+                # memory-safe bounds: the declared size, or the length counter of the same string (kept <= usable size by C03.a/b)
+                size_ok = (h is not None and linear(h, is_str_size) == (1, 0)) or size == "(long)state->[[intexpr.ref.name]]_counter"
             read_ok = read.endswith("[" + m.group(1) + "]") and "state->c.[[intexpr.ref.name]]" in read
             ok = size_ok and read_ok
             why = f"size bound {size!r} ok={size_ok}, read {read!r} ok={read_ok}"
